@@ -227,6 +227,7 @@ type tr struct {
 	atomTy  []ity                  // types
 	vars    map[types.Object]string // function mode: bound variables
 	nvar    int
+	vardiv  bool            // a division by a non-constant was emitted
 	need    map[string]bool // callee functions needed (same package)
 	order   *[]string
 }
@@ -341,10 +342,12 @@ func (t *tr) expr(e ast.Expr) string {
 			// the divisor must be a non-zero constant: Go panics on a zero divisor, Z.quot does not
 			dv := t.pi.info.Types[x.Y].Value
 			if dv == nil || dv.Kind() != constant.Int || constant.Sign(dv) == 0 {
-				if t.atoms {
-					return t.atom(e)
+				if !t.atoms {
+					t.fail(e, "division by a non-constant")
 				}
-				t.fail(e, "division by a non-constant")
+				// guard mode: emitted with the divisor as an operand; Go panics on a zero divisor where
+				// Z.quot/Z.rem return 0/the dividend, so tie lemmas must carry "divisor <> 0" (flagged in the comment)
+				t.vardiv = true
 			}
 			if x.Op == token.QUO {
 				return fmt.Sprintf("(go_quot %s %s %s)", ty.name, t.expr(x.X), t.expr(x.Y))
@@ -752,6 +755,12 @@ func coqName(prefix, fn string) string {
 	return prefix + "__" + strings.ReplaceAll(fn, ".", "_")
 }
 
+func (pi *pkgInfo) srcOf(n ast.Node) string {
+	var b bytes.Buffer
+	printer.Fprint(&b, pi.fset, n)
+	return strings.Join(strings.Fields(b.String()), " ")
+}
+
 func (pi *pkgInfo) relfile(p token.Pos, repo string) string {
 	pos := pi.fset.Position(p)
 	r, err := filepath.Rel(repo, pos.Filename)
@@ -848,14 +857,17 @@ func emitGuards(w *bytes.Buffer, pi *pkgInfo, repo, prefix, name string) int {
 	base := coqName(prefix, name)
 	count := map[string]int{}
 	n := 0
-	var emitAt func(kind string, e ast.Expr, label string, pos token.Pos)
-	emit := func(kind string, e ast.Expr, label string) { emitAt(kind, e, label, e.Pos()) }
-	emitAt = func(kind string, e ast.Expr, label string, pos token.Pos) {
+	// force: emit even a bare atom / a constant (conditions, field writes, loop headers: WHAT is tested or
+	// stored matters even when there is no operator in it)
+	var emitAt func(kind string, e ast.Expr, label string, pos token.Pos, force bool)
+	emit := func(kind string, e ast.Expr, label string) { emitAt(kind, e, label, e.Pos(), false) }
+	emitForced := func(kind string, e ast.Expr, label string) { emitAt(kind, e, label, e.Pos(), true) }
+	emitAt = func(kind string, e ast.Expr, label string, pos token.Pos, force bool) {
 		ty, ok := basicOf(pi.info.TypeOf(e))
-		if !ok || !hasOperator(e) {
+		if !ok || (!force && !hasOperator(e)) {
 			return
 		}
-		if tv := pi.info.Types[e]; tv.Value != nil {
+		if tv := pi.info.Types[e]; tv.Value != nil && !force {
 			return // constant expression
 		}
 		t := &tr{pi: pi, prefix: prefix, atoms: true, atomIdx: map[string]int{}, vars: map[types.Object]string{}}
@@ -873,12 +885,12 @@ func emitGuards(w *bytes.Buffer, pi *pkgInfo, repo, prefix, name string) int {
 			body = t.expr(e)
 			return true
 		}()
-		if !okk || (len(t.atomTxt) == 1 && body == "x1") {
+		if !okk || (!force && len(t.atomTxt) == 1 && body == "x1") {
 			return
 		}
 		// guards are named after their own source text (not their position), so that inserting or removing
 		// an unrelated guard does not rename the others, while any edit of a guard renames it
-		if kind != "assign" {
+		if kind != "assign" && kind != "store" && kind != "forinit" {
 			label = label + "_" + slug(t.src(e))
 		}
 		count[label]++
@@ -894,7 +906,11 @@ func emitGuards(w *bytes.Buffer, pi *pkgInfo, repo, prefix, name string) int {
 		for _, a := range t.atomTxt {
 			q = append(q, "\""+strings.ReplaceAll(a, "\"", "'")+"\"")
 		}
-		fmt.Fprintf(w, "(* %s:%d %s  %s: %s *)\n", pi.relfile(pos, repo), pi.fset.Position(pos).Line, name, kind, cmt(t.src(e)))
+		note := ""
+		if t.vardiv {
+			note = "  [divides by a non-constant: Go panics when it is zero]"
+		}
+		fmt.Fprintf(w, "(* %s:%d %s  %s: %s%s *)\n", pi.relfile(pos, repo), pi.fset.Position(pos).Line, name, kind, cmt(t.src(e)), note)
 		fmt.Fprintf(w, "Definition %s %s : %s :=\n  %s.\n", nm, strings.Join(ps, " "), coqTy(ty), body)
 		fmt.Fprintf(w, "Definition %s_atoms : list string := [%s]%%string.\n\n", nm, strings.Join(q, "; "))
 		n++
@@ -904,14 +920,44 @@ func emitGuards(w *bytes.Buffer, pi *pkgInfo, repo, prefix, name string) int {
 		case *ast.FuncLit:
 			return true
 		case *ast.IfStmt:
-			emit("if", x.Cond, "if")
+			emitForced("if", x.Cond, "if")
 		case *ast.CaseClause:
 			for _, e := range x.List {
-				emit("case", e, "case")
+				if ty, ok := basicOf(pi.info.TypeOf(e)); ok && ty.name == "bool" {
+					emitForced("case", e, "case")
+				} else {
+					emit("case", e, "case")
+				}
 			}
 		case *ast.ForStmt:
 			if x.Cond != nil {
-				emit("for", x.Cond, "for")
+				emitForced("for", x.Cond, "for")
+			}
+			if as, ok := x.Init.(*ast.AssignStmt); ok && len(as.Lhs) == len(as.Rhs) {
+				for i, r := range as.Rhs {
+					if id, ok := as.Lhs[i].(*ast.Ident); ok && !hasOperator(r) {
+						emitForced("forinit", r, "forinit_"+id.Name)
+					}
+				}
+			}
+		case *ast.IncDecStmt:
+			if _, ok := basicOf(pi.info.TypeOf(x.X)); ok {
+				op := token.ADD
+				if x.Tok == token.DEC {
+					op = token.SUB
+				}
+				one := &ast.BasicLit{Kind: token.INT, Value: "1"}
+				pi.info.Types[one] = types.TypeAndValue{Type: pi.info.TypeOf(x.X), Value: constant.MakeInt64(1)}
+				be := &ast.BinaryExpr{X: x.X, Op: op, Y: one, OpPos: x.TokPos}
+				pi.info.Types[be] = types.TypeAndValue{Type: pi.info.TypeOf(x.X)}
+				label := "set_x_op"
+				switch l := x.X.(type) {
+				case *ast.Ident:
+					label = "set_" + l.Name + "_op"
+				case *ast.SelectorExpr:
+					label = "set_" + l.Sel.Name + "_op"
+				}
+				emitAt("assign", be, label, x.Pos(), false)
 			}
 		case *ast.AssignStmt:
 			if len(x.Lhs) == len(x.Rhs) {
@@ -934,7 +980,17 @@ func emitGuards(w *bytes.Buffer, pi *pkgInfo, repo, prefix, name string) int {
 						}
 						be := &ast.BinaryExpr{X: x.Lhs[i], Op: op, Y: r, OpPos: x.TokPos}
 						pi.info.Types[be] = types.TypeAndValue{Type: pi.info.TypeOf(x.Lhs[i])}
-						emitAt("assign", be, label+"_op", x.Pos())
+						emitAt("assign", be, label+"_op", x.Pos(), false)
+						continue
+					}
+					if sel, ok := x.Lhs[i].(*ast.SelectorExpr); ok && x.Tok == token.ASSIGN && (!hasOperator(r) || pi.info.Types[r].Value != nil) {
+						// plain field write (no operator / a constant): WHAT is stored WHERE
+						emitForced("store", r, "put_"+slug(pi.srcOf(sel)))
+						continue
+					}
+					if _, isCall := r.(*ast.CallExpr); (isCall || pi.info.Types[r].Value != nil) && !hasOperator(r) {
+						// a bare call or a constant: WHAT is assigned (text of the call with its arguments / the value)
+						emitForced("store", r, "let_"+strings.TrimPrefix(label, "set_"))
 						continue
 					}
 					emit("assign", r, label)
@@ -948,7 +1004,7 @@ func emitGuards(w *bytes.Buffer, pi *pkgInfo, repo, prefix, name string) int {
 		return true
 	})
 	if n == 0 {
-		fatal("%s: %s: no guard or arithmetic expression found", pi.path, name)
+		fmt.Fprintf(w, "(* %s %s: no guard or arithmetic expression in the translated subset *)\n\n", pi.relfile(fd.Pos(), repo), name)
 	}
 	return n
 }
